@@ -307,7 +307,7 @@ def tlc_validate(ctx, name, module, files, timeout=3600, cfg=None, depth=0, coun
     extra = TRACE_CFG.get(module, "")
     cfg = cfg or (extra if extra.startswith("INIT") else VALIDATE_CFG + extra)
     todo = [(k, f) for k, f in enumerate(files) if os.path.getsize(f) > 0]
-    if len(todo) > MAX_SHARDS and depth == 0:
+    if len(todo) > MAX_SHARDS:
         # more shards than TLC processes that fit in memory side by side: validate in waves
         results = []
         for i in range(0, len(todo), MAX_SHARDS):
